@@ -32,9 +32,10 @@ RULE = (
     "with form in {propagate, iter sample, split propagate, backward propagate}, distinct by that tuple"
 )
 BOUNDS = {
-    "quick": "4 orbits x 4 methods x steps {5,15,30,60,120} s; horizon min(3 periods, 1000 steps) (Euler: P/20 for the order test); "
+    "quick": "adaptive methods x steps {60, 120} s on the Molniya-like orbit started at apogee, 0.95 period across the perigee: re-sampled streams "
+    "(77 s, 2.5 h, dates=DateRange) and propagate() to 4 off-grid dates vs the native nodes and the exact flow; 4 orbits x 4 methods x steps {5,15,30,60,120} s; horizon min(3 periods, 1000 steps) (Euler: P/20 for the order test); "
     "request forms: targets P/20, P/4, -P/4 (+P where <= 600 steps), output steps {own, equal-but-not-identical, 2.5 h, 7 s}",
-    "thorough": "same alphabet, horizon 3 periods for every step (up to 51 700 steps), adaptive tolerances {1e-3, 1e-1} m; "
+    "thorough": "cross-perigee cases with steps {15, 30, 60, 120} s and tolerances {1e-3, 1e-4}; same alphabet, horizon 3 periods for every step (up to 51 700 steps), adaptive tolerances {1e-3, 1e-1} m; "
     "request forms: targets P/20, P/4, P, 3P (on-grid), -P/4, -P on and off the grid",
 }
 ASSUMPTIONS = [
@@ -65,7 +66,11 @@ ORBITS = {  # a [m], e, i, Omega, omega, nu [rad]
     "e03": (1.0e7, 0.3, 1.1, 2.0, 1.0, 0.5),
     "mol": (2.6554e7, 0.7, 1.106, 3.0, 4.7, 0.3),
     "geo": (4.2164e7, 1e-4, 1e-3, 0.5, 0.3, 2.0),
+    # the Molniya-like orbit started at its APOGEE: an adaptive march takes nominal steps first and last and shrinks them only
+    # around the perigee, inside the span (used by the cross-perigee request cases only)
+    "apo": (2.6554e7, 0.7, 1.106, 3.0, 4.7, math.pi),
 }
+MAIN_ORBITS = ("leo", "e03", "mol", "geo")
 METHODS = ("euler", "rk4", "rkf54", "dopri54")
 STEPS = (5, 15, 30, 60, 120)
 ORDER = {"euler": 1, "rk4": 4}
@@ -204,7 +209,7 @@ def _period(name):
 def units(tier, seed):
     cfg = {"eop": "pass"}
     u = []
-    for name in ORBITS:
+    for name in MAIN_ORBITS:
         for method in METHODS:
             for h in STEPS:
                 n = horizon_steps(tier, name, h, method)
@@ -214,6 +219,10 @@ def units(tier, seed):
                 for tol in tols:
                     u.append((cfg, dict(part="march", orbit=name, method=method, h=h, n=n, tol=tol)))
                 u.append((cfg, dict(part="req", orbit=name, method=method, h=h, tier=tier)))
+    for method in ("rkf54", "dopri54"):
+        for h in ((60, 120) if tier == "quick" else (15, 30, 60, 120)):
+            for tol in ((None,) if tier == "quick" else (None, 1e-4)):
+                u.append((cfg, dict(part="xper", orbit="apo", method=method, h=h, tol=tol)))
     # heavy units first (longest-processing-time scheduling)
     u.sort(key=lambda x: -_cost(x[1]))
     return u
@@ -224,6 +233,8 @@ def _cost(p):
     if p["part"] == "march":
         return p["n"] * per * (1.6 if p["method"] in ORDER else 1.0)
     P = _period(p["orbit"])
+    if p["part"] == "xper":
+        return 6 * P / min(p["h"], 60) * per
     mult = 6 if p["tier"] == "quick" else 16
     return min(P / p["h"], 600 if p["tier"] == "quick" else 1e9) * per * mult
 
@@ -242,6 +253,8 @@ def check_case(case, t):
             check_fixed_march(case, t)
         else:
             check_adaptive_march(case, t)
+    elif case["part"] == "xper":
+        check_cross_perigee(case, t)
     else:
         check_requests(case, t)
 
@@ -679,3 +692,139 @@ def check_requests(case, t):
                 if not t.margin("O3 backward propagate (adaptive) global error / (N 10 tol kappa + interp)", ge, tol):
                     t.fail(f"KeplerNum/{method}/propagate/backward-global-error", "adaptive backward propagate stays within N x 10 tol of the exact flow", c,
                            tol, ge, f"{info}, {nst} steps")
+
+
+# ---------------------------------------------------------------------------
+# O4 for adaptive marches whose steps shrink INSIDE the span (apogee -> perigee -> towards apogee)
+
+
+def stencil_spread_irregular(ts, ys, x):
+    """As stencil_spread, for arbitrary increasing node times ts (seconds): 8-point Lagrange (Neville) at x on every stencil of
+    8 consecutive nodes whose span contains x. Returns (value on the most centred stencil, position spread, velocity spread)."""
+    import bisect
+
+    K = len(ts) - 1
+    j0 = min(max(bisect.bisect_right(ts, x) - 1, 0), K - 1)
+    starts = range(max(0, j0 - 6), min(j0, K - 7) + 1)
+    centre = min(max(j0 - 3, 0), K - 7)
+    vals = {}
+    for s0 in starts:
+        xs = [ts[s0 + i] - x for i in range(8)]
+        p = [ys[s0 + i] for i in range(8)]
+        for m in range(1, 8):
+            for i in range(8 - m):
+                p[i] = (-xs[i + m] * p[i] + xs[i] * p[i + 1]) / (xs[i] - xs[i + m])
+        vals[s0] = p[0]
+    c = vals[centre]
+    sr = max(float(np.linalg.norm((v - c)[:3])) for v in vals.values())
+    sv = max(float(np.linalg.norm((v - c)[3:])) for v in vals.values())
+    return c, sr, sv
+
+
+def check_cross_perigee(case, t):
+    from datetime import timedelta
+    from beyond.dates import Date
+    from mc.ref import twobody
+
+    name, method, h, tolv = case["orbit"], case["method"], case["h"], case.get("tol")
+    only = case.get("only")
+    mu = _G["mu"]
+    g = geom(name)
+    y0 = y0_of(name)
+    h_us = h * 1_000_000
+    P = g["P"]
+    tol_ad = 1e-3 if tolv is None else tolv
+    base = dict(part="xper", orbit=name, method=method, h=h, tol=tolv)
+    v_p = math.sqrt(mu * (2 / g["rp"] - 1 / g["a"]))
+    a_p = mu / g["rp"] ** 2
+    T_us = int(round(0.95 * P / h)) * h_us
+    # ---- the native nodes of the march (the re-sampled requests below run the very same march) -----------------------
+    nodes = _lib_nodes(make(name, method, h_us, tolv), T_us, t, base, f"KeplerNum/{method}/march", real_steps=True)
+    if nodes is None:
+        return
+    t.trans(len(nodes) - 1)
+    ts = [u * 1e-6 for u, _ in nodes]
+    ys = [y for _, y in nodes]
+    dts = [b[0] - a[0] for a, b in zip(nodes, nodes[1:])]
+    inside = min(dts[1:-1]) < h_us if len(dts) > 2 else False
+    nominal_ends = dts[0] == h_us and dts[-1] == h_us
+    t.outcome(("xper", method, h, "shrunk-inside" if inside else "no-shrink", "nominal-ends" if nominal_ends else "shrunk-ends"))
+    if not (inside and nominal_ends):
+        t.exclude("cross-perigee march without the pattern 'nominal first and last step, shorter steps inside' (case kept, not counted as non-trivial)")
+    nst = len(dts)
+
+    def judge(us, y, form, c):
+        """A re-sampled state at `us` against (i) textbook Lagrange of the native nodes and (ii) the exact flow."""
+        x = us * 1e-6
+        if us in {u for u, _ in nodes}:
+            refv, sr, sv = ys[[u for u, _ in nodes].index(us)], 0.0, 0.0
+        else:
+            refv, sr, sv = stencil_spread_irregular(ts, ys, x)
+        tr = v_p * QUANT + 2 * sr + 1e-6
+        tv = a_p * QUANT + 2 * sv + 1e-9
+        d, dv = float(np.linalg.norm(y[:3] - refv[:3])), float(np.linalg.norm(y[3:] - refv[3:]))
+        ok = True
+        if not t.margin("O4 adaptive across perigee: re-sampled state vs textbook 8-pt Lagrange of the native nodes / (time resolution + stencil spread)",
+                        max(d / tr, dv / tv), 1.0):
+            ok = False
+            t.fail(f"KeplerNum/{method}/resampled-vs-native-nodes/{form}", "a re-sampled state interpolates the nodes of the march around its date", c,
+                   [float(v) for v in refv], [float(v) for v in y],
+                   f"{name} h={h}s tol={tol_ad} {form} t={x}s: |dr|={d:.4e} m (tol {tr:.3e}), |dv|={dv:.3e} (tol {tv:.3e})")
+        ex = twobody.propagate_uv(y0, x, mu)
+        ge = float(np.linalg.norm(y[:3] - ex[:3]))
+        gb = nst * SMALL_MULT * tol_ad * kappa_bar(g, x) + tr
+        if not t.margin("O4 adaptive across perigee: re-sampled state vs exact flow / (N 10 tol kappa + interp)", ge, gb) and ok:
+            ok = False
+            t.fail(f"KeplerNum/{method}/resampled-vs-exact-flow/{form}", "the state for a date stays within the accuracy of the march whatever the request form", c,
+                   gb, ge, f"{name} h={h}s tol={tol_ad} {form} t={x}s")
+        return ok
+
+    # ---- re-sampled streams: output step != native, (start, stop, step) and dates=DateRange ------------------------------
+    for form, so in (("step-77s", 77_000_000), ("step-2.5h", int(2.5 * h_us)), ("dates-77s", 77_000_000)):
+        if only and only != form:
+            continue
+        c = dict(base, only=form)
+        orb = make(name, method, h_us, tolv)
+        try:
+            if form.startswith("dates"):
+                last = (T_us // so) * so
+                it = orb.iter(dates=Date.range(at(0), at(last), timedelta(microseconds=so), inclusive=True))
+            else:
+                it = orb.iter(stop=at(T_us), step=timedelta(microseconds=so))
+            samples = [(us_of(o.date), A(o)) for o in it]
+            t.trans(len(samples))
+        except LIBERR as e:
+            t.fail(f"KeplerNum/{method}/iter/raises-{type(e).__name__}", "iter yields states", c, "states", repr(e)[:300], f"{name} h={h}s {form}")
+            continue
+        if [u for u, _ in samples][: T_us // so + 1] != [k * so for k in range(T_us // so + 1)]:
+            t.fail(f"KeplerNum/{method}/iter/sample-dates", "iter(stop, step) yields epoch + k*step", c, "k*step", [u for u, _ in samples][:5], f"{name} h={h}s {form}")
+            continue
+        bad = 0
+        for u, y in samples:
+            if u > T_us:
+                break
+            t.ev(("X", method, h, tolv, form, u) if inside and nominal_ends else None)
+            if not judge(u, y, form, c):
+                bad += 1
+                if bad >= 3:
+                    break
+        t.states_add(len(samples))
+    # ---- propagate() to off-grid dates before / inside / after the perigee passage --------------------------------------
+    for frac in (0.30, 0.55, 0.70, 0.90):
+        form = f"propagate-{frac:.2f}P"
+        if only and only != form:
+            continue
+        us = int(frac * P / 7.0) * 7_000_000 + 1_000_000
+        c = dict(base, only=form)
+        t.ev(("X", method, h, tolv, form) if inside and nominal_ends else None)
+        t.state(("X", method, h, tolv, form))
+        try:
+            p = make(name, method, h_us, tolv).propagate(at(us))
+            t.trans()
+        except LIBERR as e:
+            t.fail(f"KeplerNum/{method}/propagate/raises-{type(e).__name__}", "propagate returns a state", c, "state", repr(e)[:300], f"{name} h={h}s {form}")
+            continue
+        if us_of(p.date) != us:
+            t.fail(f"KeplerNum/{method}/propagate/date", "propagate(t) returns a state dated t", c, us, us_of(p.date))
+            continue
+        judge(us, A(p), "propagate", c)
